@@ -40,8 +40,8 @@ func init() {
 	prop("C10", []string{"R-COPYFRESH", "R-MODEPROP"},
 		"the mode belongs to one Regex value: Copy never shares the engine that Longest() mutates (R-COPYFRESH); every per-search state handed out carries the engine's current mode on every path (R-MODEPROP).",
 		"that each engine honours the mode (DFA-direct and digit-prefilter paths are known to ignore it on the pinned tree - see DESIGN.md findings not armed), sub-match choice in longest mode.")
-	prop("C04", []string{"R-ITERSTATE"},
-		"the iterator closures keep their cursor local to one traversal (R-ITERSTATE).",
+	prop("C04", []string{"R-ITERSTATE", "R-LOOPARG"},
+		"the iterator closures keep their cursor local to one traversal (R-ITERSTATE); searches resumed at an offset hand the full haystack to the engines (never haystack[at:], and no context-dropping callee with a non-zero start), so look-behind assertions see the bytes before the resume position (R-LOOPARG).",
 		"the adjacency/advance arithmetic of the enumeration loops, limit handling, code-point advance after an empty match (known divergence: byte-wise advance), look-behind at resume positions.")
 	prop("C05", []string{"R-RECURSION", "R-EPOCH"},
 		"every search-time recursion (call-graph cycle reachable from a search root) is guarded by a visited test-and-set gate on every path to the recursive call (R-RECURSION); the visited epoch of the backtracker is never advanced inside a start-position loop that calls the gated recursion, and every advance handles wrap-around (R-EPOCH).",
